@@ -174,7 +174,7 @@ func init() {
 		TrustedBase: []string{stdTrusted},
 	})
 	reg(&PropertySpec{
-		ID: "C01", Level: "model_checking",
+		ID: "C01", Level: "translation_validation", Extra: regoC01,
 		Rule: "one state = one formula shape (chosen by nondeterministic recursion through the real constructors) executed through the real Dispatch/GenerateAnd/GenerateOr/GenerateConditional/Negate code; z3 decides the equivalence for all truth assignments of the shape's atoms at once",
 		Harnesses: func(tier string) []HarnessSpec {
 			if tier == "thorough" {
@@ -192,9 +192,10 @@ func init() {
 			"propositional skeleton only: atoms are minCount 1 on distinct properties; a generated leaf whose last line starts with `not ` fails exactly when its atom is false, otherwise exactly when it is true (the reading of a count leaf)",
 			"a validation reports a node iff some generated branch has all its leaves failing (how wrapTopLevelRegoResult turns branches into rule bodies)",
 			"formula depth <= 2 exhaustively (width 2; width 3 in the thorough tier) plus spines to depth 3/4; deeper or wider formulas are outside the bound",
-			"the meaning of the other atomic constraints, nested/atLeast/atMost and the evaluation of the emitted Rego on graphs are NOT covered by this harness",
+			"regosym part: every program of the families (atoms / quantified / skeletons as YAML) is translated by the real generator, compiled by the linked OPA and evaluated symbolically on a graph of 3 nodes with <= 2 values per property; the reference semantics is the atom table of DESIGN.md §3.7 and is three-valued (undocumented cases are not compared)",
+			"programs outside the families, deeper nesting, larger graphs, embedded Rego and custom-property (apiExt) paths are outside the bound",
 		},
-		TrustedBase: []string{stdTrusted},
+		TrustedBase: []string{stdTrusted, "regosym (/verif/regosym), OPA v0.47.0 parser/compiler/built-ins called natively, the native driver built from /repo"},
 	})
 
 	reg(&PropertySpec{
@@ -249,5 +250,21 @@ func init() {
 			"a panic is identified by the function that raised it, so a new panic site is a new violation",
 		},
 		TrustedBase: []string{stdTrusted, "stubs in gosym/stubs.go"},
+	})
+
+	regoTrusted := "regosym (bounded symbolic evaluator of the compiled Rego AST, /verif/regosym) and its reference semantics; OPA v0.47.0 parser/compiler and built-in implementations (called natively on concrete operands); z3 4.8.12; the native driver built from /repo's working tree"
+	reg(&PropertySpec{
+		ID: "C02", Level: "translation_validation", Extra: regoC02,
+		Rule: "one program = one path expression in one generator mode; its generated path rule (real generator output, compiled by the linked OPA) is evaluated symbolically from every source node of a symbolic graph and compared, member by member, with the relational denotation of the expression; z3 decides whether any graph in the scope distinguishes them",
+		Harnesses: func(tier string) []HarnessSpec {
+			return []HarnessSpec{{Pkg: "internal/generator", Fn: "VerifC07PathBindings", Reach: []string{"traversed"}, Bounds: map[string]any{"path_shapes": 21}}}
+		},
+		Assumptions: []string{
+			"finite scope: N nodes (2 quick / 3 thorough), at most 2 distinct values per (node, predicate) drawn from references to every node, one dangling reference and one literal; larger graphs are outside the bound",
+			"path expressions are enumerated up to the stated number of predicate occurrences over two predicates; deeper expressions are outside the bound",
+			"expressions whose last step mixes a forward predicate with an inverse one are skipped (a raw reference and the node it denotes are different representations; the documentation does not say which one a constraint sees)",
+			"a counterexample is confirmed by evaluating the generated rule with the real OPA on the document normalised by the real pipeline",
+		},
+		TrustedBase: []string{stdTrusted, regoTrusted},
 	})
 }
